@@ -74,7 +74,9 @@ func stringsV() []string {
 
 // exotic strings (thorough tier): astral vs BMP ordering by UTF-16 code units.
 func stringsExotic() []string {
-	return []string{"\uFF5E", "\U0001F600"}
+	return []string{"\uFF5E", "\U0001F600",
+		// more spellings of the Go-only number syntax and of out-of-range hex (same classes as the quick-tier representatives)
+		"-inf", "+Inf", "INFINITY", "iNfInItY", "nan", "1e1_0", "1_0.5", "0_1", "0X.1P8", "-0x1.8p1", "0x.8p1", "0xffffffffffffffff", "0xFFFFFFFFFFFFFFFFFFFF", "0x7fffffffffffffff"}
 }
 
 func primName(s string) string { return "s:" + strconv.QuoteToASCII(s) }
@@ -229,6 +231,18 @@ func buildV(thorough bool) []*val {
 	for _, s := range ss {
 		add(&val{name: primName(s), m: conv.Str(s), goVal: s})
 	}
+	// strings with lone surrogates (no Go string can carry them: built in-language from code units)
+	lone := [][]uint16{{0xD800}, {0xD801}, {0xDC00}, {0xFFFD}}
+	if thorough {
+		lone = append(lone, []uint16{0xD83D}, []uint16{0xDE00}, []uint16{'a', 0xD800}, []uint16{0xDC00, 0xD800})
+	}
+	for _, u := range lone {
+		name := "s16:"
+		for _, c := range u {
+			name += fmt.Sprintf("%04X", c)
+		}
+		add(&val{name: name, carrier: "u16", m: conv.Str(conv.FromUnits(u)), src: ox.JSString(u)})
+	}
 	for _, o := range objectSpecs() {
 		o := o
 		add(&val{name: "o:" + o.name, obj: &o})
@@ -264,7 +278,7 @@ var (
 // plainNames are the own properties of the plain object `o:plain` (the right operand of `in`).
 var plainNames = []string{"0", "1", "abc", "NaN", "undefined", "null", "true", "Infinity", "-Infinity", "1.5", "0.5", "0.1",
 	"1e+21", "1e-7", "0.000001", "4294967296", "2147483648", "-1", "", "x", "D", "12", "[object Object]", "9007199254740992",
-	"9223372036854776000", "5e-324", "F", "123456789012345680000"}
+	"9223372036854776000", "5e-324", "F", "123456789012345680000", "\uFFFD"}
 
 func objectSpecs() []objSpec {
 	negZero := conv.Num(math.Copysign(0, -1))
@@ -348,7 +362,7 @@ func jsPrim(v conv.Value) string {
 	case conv.Number:
 		return ox.JSNum(v.N)
 	case conv.String:
-		return ox.JSLit(v.S)
+		return ox.JSString(conv.Units(v.S)) // a literal for printable ASCII, String.fromCharCode(...) otherwise
 	}
 	panic("jsPrim: object")
 }
@@ -399,7 +413,7 @@ func canonModel(v conv.Value) string {
 	case conv.Number:
 		return "d:" + numRender(v.N)
 	case conv.String:
-		return ox.Str16(ox.Units(v.S))
+		return ox.Str16(conv.Units(v.S))
 	}
 	return "o:" + v.O.ID
 }
